@@ -111,13 +111,5 @@ int main() {
     vq::registry()["c.transpose"] = op_ctranspose;
     vq::registry()["c.saad"] = op_csaad;
     vq::registry()["c.sum"] = op_csum;
-    // exceptions are turned into the payload here (vq::driver_main streams "<id> <op>" before
-    // the handler runs, which would garble the line of a throwing case)
-    for (auto &kv : vq::registry()) {
-        vq::Handler h = kv.second;
-        kv.second = [h](Tok &t) -> std::string {
-            try { return h(t); } catch (const std::exception &e) { return "EXC " + vq::exc_kind(e); }
-        };
-    }
     return vq::driver_main();
 }
